@@ -173,7 +173,7 @@ SPECS = {
                      "input classes, and X.509 chains minted with the openssl crate (21 variants x 6 times) judged against the verdict known "
                      "by construction; one evaluation = one pairwise comparison; distinct = distinct (operation, suite, pair, input class); "
                      "plus one valgrind memcheck run of a reduced OpenSSL + AWS-LC workload"),
-    "C12": dict(shards=(8, 32), level="exploration",
+    "C12": dict(shards=(8, 32), level="exploration", post="c12_post",
                 floors={"quick": {"nontrivial": 100000, "targeted_nonminimal": 5000, "arbitrary_decodes": 20000}},
                 show=("histories", "nontrivial", "trivial", "targeted_", "arbitrary_"),
                 rule="harvested library-produced blobs of 30 kinds (value round trip, exact consumption, exact encoded_len), hostile byte strings "
